@@ -135,7 +135,7 @@ theorem C08_engine_success (inp : Input) (n T : Nat) (hn : 0 < n)
 cell; cap ≥ 1): the executable Spec that judges the real providers accepts the model's observation. -/
 theorem C08_spec_holds (k : Kind) (preload : Bool) (limit passes n cap : Nat) (hn : 0 < n) (hcap : 0 < cap)
     (hbig : ∀ m, Spec.C08.expected limit passes n = some m → m < cap) :
-    Spec.C08.holds ⟨limit, passes, n, cap⟩
+    Spec.C08.holds { limit, passes, n, cap }
       (Drv.C08.obsOf cap 0 (run ⟨k, preload, ⟨limit, passes⟩, some cap⟩ n)) = true := by
   cases hE : Spec.C08.expected limit passes n with
   | none =>
